@@ -752,6 +752,20 @@ class StmtParser(Parser):
             name, e = a
             self.end_of_stmt()
             return "let %s := %s\n%s" % (name, e, self.sstmts(env))
+        if (self.peek()[0] == "id" and self.peek()[1] in self.arrays and self.peek(1) == ("op", ".")
+                and self.peek(2) == ("id", "sort") and self.peek(3) == ("op", "(") and self.peek(4) == ("op", ")")):
+            # `arr.sort();` on an array known element by element: the job names the sorting function for that length
+            name = self.eat()[1]
+            for _ in range(4):
+                self.eat()
+            self.eat("op", ";")
+            elems = self.arrays[name]
+            fn = self.opts.get("array_sort", {}).get(len(elems))
+            if fn is None:
+                raise TranslateError("sort() of an array of length %d without a choice of the job" % len(elems))
+            sv = self.gensym(name + "_sorted")
+            self.arrays[name] = [proj(sv, i, len(elems)) for i in range(len(elems))]
+            return "let %s := (%s %s)\n%s" % (sv, fn, " ".join(elems), self.sstmts(env))
         e = self.expr()
         if e == "⟪STATECALL⟫":
             p, self.pending = self.pending, None
@@ -800,6 +814,9 @@ class StmtParser(Parser):
                     self.eat()
             self.eat("op", "=")
             e = self.expr()
+            if e == "⟪ARRAYMAP⟫":
+                # a fixed array built element by element; the only mutation accepted afterwards is `name.sort()`
+                return self.array_map(env, name)
             self.eat("op", ";")
             typ = self.opts.get("mut_types", {}).get(name) or ("Bool" if e in ("true", "false") else None)
             if typ is None:
